@@ -40,6 +40,7 @@ trait Fb<C: PixelColor>: DrawTarget<Color = C, Error = Infallible> + GetPixel<Co
     fn image_size(&self) -> Size;
     fn image_pixel(&self, p: Point) -> Option<C>;
     fn draw_image_onto(&self, t: &mut NativeT<C>, at: Point);
+    fn draw_image_onto_skipping(&self, t: &mut crate::props::c09::SkipT<C>, at: Point);
 }
 
 macro_rules! impl_fb {
@@ -61,6 +62,10 @@ macro_rules! impl_fb {
                 self.as_image().pixel(p)
             }
             fn draw_image_onto(&self, t: &mut NativeT<$c>, at: Point) {
+                let img = self.as_image();
+                Image::new(&img, at).draw(t).unwrap();
+            }
+            fn draw_image_onto_skipping(&self, t: &mut crate::props::c09::SkipT<$c>, at: Point) {
                 let img = self.as_image();
                 Image::new(&img, at).draw(t).unwrap();
             }
@@ -390,6 +395,14 @@ where
     }
     if let Some(df) = diff_maps("model", &expected, "drawing as_image()", &rec.0.map) {
         return fail("as_image:draw", df);
+    }
+    // the same onto a target that shows a window only and skips the hidden colours with `nth`
+    let win = Rectangle::new(at + Point::new(d.i(0, w.min(12)), d.i(0, h.min(12))), Size::new(d.u(0, 9), d.u(1, 9)));
+    let mut skipping = crate::props::c09::SkipT::<C> { window: win, map: Map::new() };
+    fb.draw_image_onto_skipping(&mut skipping, at);
+    let expected_win: Map<C> = expected.iter().filter(|(k, _)| win.contains(Point::new(k.0, k.1))).map(|(k, v)| (*k, *v)).collect();
+    if let Some(df) = diff_maps("model restricted to the window", &expected_win, &format!("drawing as_image() onto a target that skips hidden colours (window {:?})", win), &skipping.map) {
+        return fail("as_image:draw_skipping_target", df);
     }
     Ok(())
     })();
